@@ -28,6 +28,9 @@ func runC07(c *Ctx) {
 	r := c.R
 	const pkg = "kvstore"
 	info := p.Pkg(pkg).TypesInfo
+	// the reservation is durable when store.Set returned nil - on a write-buffering store that is what
+	// the flushing wrapper provides, for every view it hands out
+	checkFlushingWrapper(r, p)
 	methods := p.Methods(pkg, "Sequence")
 	if p.FuncDecl(pkg, "Sequence", "Next") == nil || p.FuncDecl(pkg, "Sequence", "Release") == nil {
 		r.Unresolved("seq/anchors", "kvstore.Sequence", "expected the operations Next and Release")
